@@ -1,5 +1,5 @@
 From Coq Require Import List String ZArith Bool Arith Lia.
-From GM Require Import Base.Result Facts.GoFacts Facts.Ana Model.Enums Model.Fields Model.Classify Model.RandData.
+From GM Require Import Base.Result Facts.GoFacts Facts.Ana Model.Enums Model.Fields Model.Classify Model.RandData Proofs.C12.
 Import ListNotations.
 
 Section C15.
@@ -57,5 +57,29 @@ Section C15.
     assert (forall k f u, returns f u = true -> returns (k + f) u = true) as Lift.
     { induction k; intros f u Hu; simpl; [assumption|]. apply returns_mono. apply IHk. assumption. }
     replace n with ((n - S (rk c)) + S (rk c)) by lia. apply Lift. assumption.
+  Qed.
+
+  (** the level-by-level computation used by the check is [returns] *)
+  Lemma existsb_gty t l : existsb (gty_eqb t) l = true <-> In t l.
+  Proof.
+    rewrite existsb_exists. split.
+    - intros [x [Hin He]]. apply gty_eqb_eq in He. subst. exact Hin.
+    - intros Hin. exists t. split; [exact Hin | apply gty_eqb_eq; reflexivity].
+  Qed.
+
+  Lemma returns_level_spec : calls_closed nodes = true ->
+    forall k t, In t (positions nodes) -> returns k t = returns_level nodes k t.
+  Proof.
+    intros Hcl. unfold calls_closed in Hcl. rewrite forallb_forall in Hcl.
+    induction k as [|k IH]; intros t Ht; [reflexivity|].
+    unfold returns_level. cbn [RandData.returns returning].
+    assert (Hcalls : forall c, In c (rand_calls t) -> In c (positions nodes)).
+    { intros c Hc. pose proof (Hcl t Ht) as H. rewrite forallb_forall in H. apply existsb_gty. apply H. exact Hc. }
+    assert (Heq : forallb (returns k) (rand_calls t) = forallb (fun c => existsb (gty_eqb c) (returning nodes k)) (rand_calls t)).
+    { clear - IH Hcalls. induction (rand_calls t) as [|c l IHl]; [reflexivity|]. cbn [forallb].
+      rewrite (IH c (Hcalls c (or_introl eq_refl))). rewrite IHl; [reflexivity|]. intros c' Hc'. apply Hcalls. right. exact Hc'. }
+    rewrite Heq. destruct (forallb (fun c => existsb (gty_eqb c) (returning nodes k)) (rand_calls t)) eqn:E.
+    - symmetry. apply existsb_gty. apply filter_In. split; [exact Ht | exact E].
+    - symmetry. apply not_true_is_false. intros H. apply existsb_gty in H. apply filter_In in H. destruct H as [_ H]. congruence.
   Qed.
 End C15.
